@@ -95,13 +95,14 @@ def plan(tier, seed):
               for k, w in enumerate(["mex", "nimitz"])]
     specs[-1]["optimize"] = True          # python -O: assert statements are compiled away
     specs.append({"mode": "layout", "n": 25 if tier == "quick" else 300, "rseed": seed * 1000 + 200})
+    specs.append({"mode": "script", "n": 16 if tier == "quick" else 300, "rseed": seed * 1000 + 300})
     return specs
 
 
 def minimums(tier):
     return {"ilog.calls_checked": 2000, "ilog.entries_checked": 20000, "get_entry.checked": 20000, "shipped.entries_checked": 2000,
             "workload.reported_error_ptes": 1500, "workload.partial_trailing": 300, "layout.compared": 40,
-            "layout.decoded_in_plain_tree": 40}
+            "layout.decoded_in_plain_tree": 40, "script.runs_with_own_tables": 12}
 
 
 def run(spec, ctx):
@@ -127,6 +128,11 @@ def run(spec, ctx):
                 except Exception as e:
                     ctx.violation("C14/decoder-raised/" + type(e).__name__, "parse_ilog_data raised %r" % (e,), data=data[:400],
                                   table=[list(t) for t in table][:50])
+        return
+    if spec["mode"] == "script":
+        # the stand-alone formatter given the PTE table with -d (absolute / relative / named like a shipped table)
+        from vf.props import c17
+        c17.script_with_tables(ctx, "C14", rng, root, spec["n"], ilog_only=True)
         return
     if spec["mode"] == "layout":
         # the shipped tables are found next to the modules: same result however the package is laid out on disk
